@@ -152,6 +152,7 @@ class Conv:
             return "(GEv %d%%nat (EvPayFinish %d%%nat %s))" % (ev["h"], ev["c"], out)
         if k == "tick": return "(GTick %d)" % ev["ms"]
         if k == "height": return "(GHeight %d)" % ev["v"]
+        if k == "hangup": return "(GHang %d)" % ev["uid"]
         if k == "crash": return "GCrash"
         raise ValueError(k)
 
